@@ -20,6 +20,24 @@ theorem addJunction_cases (s : Reg) (n : Name) (p : Option Name) (obj : Bool) :
   unfold addJunction addJunctionR
   cases h : AL.get? s.nodes n <;> simp [h]
 
+theorem leakControls_not_refused (c : List (Name × List Nat)) (n uid : Nat) (a b : Bool) :
+    (leakControls c n uid a b).2 ≠ .refused := by
+  unfold leakControls
+  cases a <;> cases b <;> simp only [Bool.false_eq_true, if_false, if_true, ne_eq, not_true_eq_false, reduceCtorEq, not_false_eq_true]
+  · split <;> simp
+  · split <;> simp
+  · by_cases h1 : AL.has c (leakCtl n true) = true
+    · rw [if_pos h1]; simp
+    · rw [if_neg h1]; simp only [not_true_eq_false, if_false]; split <;> simp
+
+theorem addLeak_not_refused (s : Reg) (n : Name) (a b : Bool) : (addLeak s n a b).2 ≠ .refused := by
+  unfold addLeak
+  split
+  · simp
+  · split
+    · simp
+    · exact leakControls_not_refused _ _ _ _ _
+
 theorem addLeak_frame (s : Reg) (n : Name) (a b : Bool) :
     (addLeak s n a b).1.nodes = s.nodes ∧ (addLeak s n a b).1.links = s.links ∧ (addLeak s n a b).1.patterns = s.patterns ∧
     (addLeak s n a b).1.curves = s.curves ∧ (addLeak s n a b).1.sources = s.sources ∧ (addLeak s n a b).1.usage = s.usage ∧
